@@ -76,10 +76,18 @@ example : parseCC (ccHeader [[.dir ⟨str% "max-age", some (str% "5")⟩ ⟨str%
       subst he
       exact ⟨by decide, by decide, by decide, (by intro a ha; cases ha), by decide, by decide⟩
 
-/-- several Cache-Control field lines are read as one comma-separated list (RFC 9110 §5.3) -/
-theorem field_lines_combined (h : Header) :
-    parseCC h = (if (joinWith [','] (Header.values h sCacheControl)).isEmpty then []
-                 else parseDirectives (joinWith [','] (Header.values h sCacheControl))) := rfl
+/-- several Cache-Control field lines are read as one list (RFC 9110 §5.3): the insertion, in order, of the
+    directives of every line — each line split on its own, because a quoted-string cannot extend over
+    field lines (the pinned parser joined the lines with "," first, so that an unterminated quote on one
+    line swallowed the directives of the next: `x="unterminated` + `no-store`) -/
+theorem field_lines_combined (h : Header) (hne : (joinWith [','] (Header.values h sCacheControl)).isEmpty = false) :
+    parseCC h = dInsertAll [] ((Header.values h sCacheControl).flatMap fun l => (trimmedCSV l).filterMap directiveOfPart) := by
+  unfold parseCC
+  simp only [hne, Bool.false_eq_true, ↓reduceIte]
+  exact parseLines_pairs _ []
+
+/-- a malformed first line does not hide what the second line says -/
+example : (parseCC [(sCacheControl, str% "x=\"unterminated"), (sCacheControl, str% "no-store")]).noStore = true := by decide
 
 /-- the elements of several lines are the elements of their concatenation -/
 theorem lines_are_one_list (ls : List (List Str)) (hne : ∀ l ∈ ls, l ≠ []) :
